@@ -23,7 +23,7 @@ META = {
     "assumptions": ["pure-Python predicate evaluator over exact field values is the reference", "datetime thresholds parsed by an independent integer-arithmetic parser"],
     "deciding": ["post:filter", "post:filter_spatial", "history:order/grouping/idempotence"],
 }
-META["added"] = 'Added: histories that leave filters set on the source, origin_time thresholds between two integer milliseconds, zero-valued attributes and thresholds, catalogs already bound to another region (constructor or earlier filter_spatial) before filter_spatial(region).'
+META["added"] = 'Added: histories that leave filters set on the source, origin_time thresholds between two integer milliseconds, zero-valued attributes and thresholds, catalogs already bound to another region (constructor or earlier filter_spatial) before filter_spatial(region). events on the exclusive outer east / north edge with no event beyond the box.'
 MANIFEST = {
     "technique": "runtime post-conditions with OLD snapshots on the real filter / filter_spatial (sub-sequence, bit-identical rows, source untouched when in_place=False, no shared memory) + pure-Python predicate reference + sequential history checker over permutations, groupings, re-application and mixed in_place histories",
     "level_text": "Every call of filter/filter_spatial in the workload is checked against OLD state (kept rows are a bit-identical sub-sequence; source untouched and unshared with in_place=False); kept ids are compared with a pure-Python predicate evaluator; for each case all permutations and all sequential groupings of up to 4 statements, re-application and in_place variants must give the same catalog; datetime statements must equal the origin-time statement of the same instant.",
@@ -268,6 +268,17 @@ def ex_spatial(ctx, lat_case, n, seed=0):
     jj = rng.integers(-2, lat_case["ny"] + 2, n)
     lon = model.ex[0] + (ii + rng.uniform(0.2, 0.8, n)) * dh
     lat = model.ey[0] + (jj + rng.uniform(0.2, 0.8, n)) * dh
+    if seed % 3 == 0:
+        # no event beyond the bounding box: all inside it, some exactly ON its outer east / north edge (the edges are exclusive)
+        ii = rng.integers(0, lat_case["nx"], n)
+        jj = rng.integers(0, lat_case["ny"], n)
+        lon = model.ex[0] + (ii + rng.uniform(0.2, 0.8, n)) * dh
+        lat = model.ey[0] + (jj + rng.uniform(0.2, 0.8, n)) * dh
+        on_e = rng.uniform(size=n) < 0.15
+        on_n = (rng.uniform(size=n) < 0.15) & ~on_e
+        lon = numpy.where(on_e, float(model.ex[-1]), lon)
+        lat = numpy.where(on_n, float(model.ey[-1]), lat)
+        tags = dict(tags, events="inside-the-closed-box-only, some on the outer east/north edge")
     primary, alts, inband = model.admissible(lon, lat)
     keep = ~inband
     lon, lat, primary = lon[keep], lat[keep], primary[keep]
